@@ -298,6 +298,9 @@ class SeqGen:
         for k in sorted(self.streams):
             self.emit("sread %d" % k)
 
+    def op_registry(self):
+        self.emit("registry")
+
     def op_stats(self):
         n = self.live_sub() or self.any_sub_name()
         self.emit("stats " + hx(n))
@@ -430,7 +433,7 @@ class SeqGen:
     TABLE = {
         "ctopic": op_ctopic, "dtopic": op_dtopic, "gtopic": op_gtopic, "csub": op_csub, "dsub": op_dsub,
         "gsub": op_gsub, "lists": op_lists, "pub": op_pub, "pull": op_pull, "ack": op_ack, "mod": op_mod,
-        "adv": op_adv, "stats": op_stats, "sopen": op_sopen, "ssend": op_ssend, "sread": op_sread,
+        "adv": op_adv, "stats": op_stats, "registry": op_registry, "sopen": op_sopen, "ssend": op_ssend, "sread": op_sread,
         "sdrop": op_sdrop, "bad": op_bad,
     }
 
@@ -455,6 +458,7 @@ class SeqGen:
             self.emit("sdrop %d" % k)
         for n in sorted(self.subs):
             self.emit("stats " + hx(n))
+        self.emit("registry")
         for p in self.projects:
             self.emit("ltopics %s 1000 -" % hx(("projects/" + p).encode()))
             self.emit("lsubs %s 1000 -" % hx(("projects/" + p).encode()))
@@ -497,7 +501,7 @@ NAMESPACE = {
     "projects": ["p1", "p2"], "topics": ["t1", "t2"], "subs": ["s1", "s2", "s3"],
     "push_chance": (1, 4), "drain": False,
     "weights": {"ctopic": 10, "dtopic": 6, "gtopic": 5, "csub": 12, "dsub": 7, "gsub": 7, "lists": 10, "pub": 5, "pull": 4,
-                "ack": 2, "mod": 2, "stats": 3, "bad": 2, "adv": 1},
+                "ack": 2, "mod": 2, "stats": 3, "bad": 2, "adv": 1, "registry": 5},
 }
 
 MALFORMED = {
@@ -517,7 +521,33 @@ PROFILES = {"general": GENERAL, "data": DATA_PLANE, "deadlines": DEADLINES, "nam
             "malformed": MALFORMED, "batches": BATCHES}
 
 
+def bigbacklog_case(r):
+    """A backlog around 65536 (where the actor's 16-bit length conversion wraps) pulled with small limits."""
+    t, sub = tname("p1", "t1"), sname("p1", "s1")
+    ops = ["new", "ctopic " + hx(t), "csub %s %s 10 -" % (hx(sub), hx(t))]
+    n = 65536 + r.choice([0, 0, 1, 3, 10, 999, 1000, 1001, 1500])
+    left = n
+    while left > 0:
+        k = min(left, r.choice([16384, 20000, 32768]))
+        ops.append("pub %s %s" % (hx(t), ",".join(["61"] * k)))
+        left -= k
+    ops.append("stats " + hx(sub))
+    backlog = n
+    for _ in range(r.range(2, 5)):
+        small = [1, 1, 2, 3, 10, 11, 999, 1000, 1001, (backlog % 65536) or 1, (backlog % 65536) + 1]
+        # a limit above 1000 is only cheap for the model (sorted-list tracker) while the wrapped length is small
+        big = [65535, 65536, 65537] if backlog >= 65536 and backlog % 65536 <= 1000 else []
+        mx = r.choice([m for m in small if m <= 1001] + big)
+        ops.append("pull %s %d 1" % (hx(sub), mx))
+        ops.append("stats " + hx(sub))
+        m16 = mx % 65536
+        backlog -= min(backlog, max(min(m16, max(backlog % 65536, 1000)), 0))
+    return ops
+
+
 def cases(rng, profile_name, n_cases, max_len):
+    if profile_name == "bigbacklog":
+        return [bigbacklog_case(rng.fork("bigbacklog/%d" % i)) for i in range(n_cases)]
     out = []
     for i in range(n_cases):
         r = rng.fork("%s/%d" % (profile_name, i))
